@@ -10,6 +10,7 @@ import gens
 import mcase
 import lcase
 import bcase
+import dcase
 import qcase
 from gens import CHILD, derive_path, rand_doc, small_scope, SMALL_STEPS_CHILD, SMALL_STEPS_FULL, SMALL_DOCS
 from terms import otree_diff, otree_to_json
@@ -34,6 +35,7 @@ FAMILIES = {
     'm': dict(printer=mcase.g_mcase, run_fn="(run_mcase BUDGET)", case_type="mcase", imports=" Mutate RunM"),
     'l': dict(printer=lcase.g_lcase, run_fn="run_lcase", case_type="lcase", imports=" DocList RunL"),
     'b': dict(printer=bcase.g_bcase, run_fn="(run_bcase BUDGET)", case_type="bcase", imports=" Builder"),
+    'd': dict(printer=dcase.g_dcase, run_fn="(run_dcase BUDGET)", case_type="mcase", imports=" Mutate RunM"),
 }
 
 
@@ -656,51 +658,7 @@ def gen_mut(kinds):
     return g
 
 
-def _shadow(shadow, op):
-    """evolve the generator's shadow document with plain Python (keys and indices only; other steps: no change)"""
-    try:
-        if op[0] in ('set', 'getstore'):
-            p = op[1]
-            if any(s[0] not in ('key', 'idx') for s in p) or not p:
-                return shadow
-            v = copy.deepcopy(op[2] if op[0] == 'set' else (op[2][-1] if op[2][0] != 'notset' else None))
-            cascade = op[3] if op[0] == 'set' else True
-            cur = shadow
-            for i, s in enumerate(p[:-1]):
-                nxt = p[i + 1]
-                try:
-                    cur = cur[s[1]]
-                except (KeyError, IndexError, TypeError):
-                    if not cascade:
-                        return shadow
-                    new = {} if nxt[0] == 'key' else []
-                    if isinstance(cur, dict) and s[0] == 'key':
-                        cur[s[1]] = new
-                    elif isinstance(cur, list) and s[0] == 'idx' and s[1] == len(cur):
-                        cur.append(new)
-                    else:
-                        return shadow
-                    cur = new
-            s = p[-1]
-            if isinstance(cur, dict) and s[0] == 'key':
-                cur[s[1]] = v
-            elif isinstance(cur, list) and s[0] == 'idx':
-                if -len(cur) <= s[1] < len(cur):
-                    cur[s[1]] = v
-                elif s[1] == len(cur):
-                    cur.append(v)
-        elif op[0] in ('pop', 'pop_match'):
-            p = op[1]
-            if any(s[0] not in ('key', 'idx') for s in p) or not p:
-                return shadow
-            cur = shadow
-            for s in p[:-1]:
-                cur = cur[s[1]]
-            if (isinstance(cur, dict) and p[-1][0] == 'key') or (isinstance(cur, list) and p[-1][0] == 'idx'):
-                cur.pop(p[-1][1])
-    except Exception:
-        pass
-    return shadow
+_shadow = mcase.shadow_step
 
 
 def snaps_m(o):
@@ -876,6 +834,20 @@ REGISTRY['C15'] = dict(level='proof', gen=gen_C15, oracle=oracle_C15,
                             "with dashed / underscored names, every step kind and spelling), interleaved with evaluations; str() and "
                             "repr() of every live expression after every operation, results of the evaluated ones; non-trivial = >= 5 "
                             "operations and >= 1 result",
+                       obligations=[])
+
+
+def gen_C18(rng, tier):
+    return [{'family': 'd', 'case': dcase.gen_dcase(rng)} for _ in range(sized(tier, 2000, 25000))]
+
+
+REGISTRY['C18'] = dict(level='proof', gen=gen_C18,
+                       nontrivial=lambda c, o: len(c['case']['ops']) >= 3 and len(scan(o, 'ok')) + len(scan(o, 'got')) >= 2,
+                       rule="random declarations (attr with default or explicit path, identity or tagging converters, names that "
+                            "are builder properties such as parent/wc/rec; attr_typed over existing containers with inner "
+                            "attributes; attr_iter_typed over wildcard paths; deprecated pprop/mprop) x histories of reads, writes, "
+                            "deletes, class-level access, operations through nested typed instances; the model performs the "
+                            "equivalent get / set_ / pop / find on a twin document; non-trivial = >= 3 operations, >= 2 succeeding",
                        obligations=[])
 
 
@@ -1071,7 +1043,6 @@ def replay(prop, path):
 
 
 NOT_BUILT = {
-    'C18': "descriptor model and check not built yet (work in progress, DESIGN.md 6/C18)",
 }
 for _pid, _spec in REGISTRY.items():
     _spec['level'] = 'proof' if _spec.get('obligations') else 'exploration'
